@@ -264,6 +264,9 @@ func (f *simFS) stored() map[string][]byte {
 			if err == nil && !info.IsDir() {
 				rel, _ := filepath.Rel(f.root, p)
 				if !info.Mode().IsRegular() {
+					if t, err := os.Readlink(p); err == nil && t == "/dev/full" {
+						return nil // the link the disk-full fault planted is not a stored file (a writer that never opened this path has no reason to remove it)
+					}
 					out[filepath.ToSlash(rel)] = []byte("<not a regular file: " + info.Mode().String() + ">")
 					return nil
 				}
